@@ -10,3 +10,6 @@ import VibeProof.Props.C16
 #print axioms VibeProof.C16.C16_simulation
 #print axioms VibeProof.C16.C16_history
 #print axioms VibeProof.C16.C16_spill
+#print axioms VibeProof.C16.C16_exclusive_start
+#print axioms VibeProof.C16.C16_exclusive_start_no_successor
+#print axioms VibeProof.C16.C16_plus_one_counterexample
